@@ -48,7 +48,11 @@ RULE = ("histories: 5 classes (HEM, Merton, VG, CGMY, BlackScholes) x N random c
         "table's up to one ulp) must be None exactly when run_default_calibration raised, else return a new object equal (full __dict__, "
         "same tolerances as the histories) to the parameters of the implementation's returned model, all values inside the table's "
         "interval up to one ulp. The two calls audit 4 found raising on /repo (default HEM model with the default bs_sigma = 0.10; "
-        "VG(nu=1.5, theta=0.3) with bs_sigma = 0.2) are fixed cases of the default stream; ~1/5 of the default cases raise")
+        "VG(nu=1.5, theta=0.3) with bs_sigma = 0.2) are fixed cases of the default stream; ~1/5 of the default cases raise. "
+        "Wave 8b: in the HEM and CGMY cases the Coq side applies the GENERATED class guard (hem_model_ok / cgmy_model_ok) and is fed only the "
+        "verdict of the generic guard (ExponentialOfLevyModel.__init__ called directly); intervals for eta1 starting at 0.5 (class guard) and "
+        "at 1.0 (division by zero; also through calibrate_model_parameter_to_atm_call, where the exception must be the raw ZeroDivisionError "
+        "or the wrapped ValueError) are fixed cases; one deterministic oracle constructs / assigns VG nu = -1.0 (finding F-C20-4)")
 MODELLED = ["Parameters objects as records over Q (floats are exact rationals; rounding of / * sqrt in the derived-field formulas is "
             "covered by the stated tolerance of the correspondence, not by the theorems)",
             "np.sqrt, scipy.special.gamma, np.power: opaque functions (theorems hold for every interpretation); correspondence feeds "
@@ -67,11 +71,21 @@ MODELLED = ["Parameters objects as records over Q (floats are exact rationals; r
             "Model/ParamsHeap.v (deepcopy / setattr / initialisation / op_model = the exponential model's constructor on an ADDRESS, which "
             "raises when the class component model_ok refuses the record / price of that model / op_brentq_ab = f(a), f(b), return at a zero "
             "end, ValueError when both end values are non-zero with the same sign (scipy 1.18 Zeros/brentq.c order), then any trial list); "
-            "a model object is identified with the address of its Parameters object (the constructor keeps a reference); spot/r/d, the "
+            "a model object is identified with the address of its Parameters object; op_price st m is the price of a model CONSTRUCTED on "
+            "the record at m at that moment (every price of utils.py follows a fresh construction) -- it does NOT describe pricing an older "
+            "model object after a later assignment: HEMModel caches sigma/drift in its triplet, ExponentialOfLevyModel caches omega (audit 5b "
+            "B14; after `parameters.sigma = 0.3; initialisation()` an existing model still prices at the old sigma); ValueError and "
+            "ZeroDivisionError are ONE outcome of the heap program (None); spot/r/d, the "
             "product and the Black-Scholes target are checked to be passed through unchanged and abstracted as an arbitrary market price",
-            "the exponential models' constructor guards (hem.py: eta1 <= 1; cgmy.py: m < 1 or (m = 1 and y <= 0); exponentialoflevymodel.py: "
-            "E[exp(L_1)] not finite / not real) are ONE opaque test model_ok : Rec -> bool (theorems hold for every interpretation; the "
-            "correspondence feeds the verdicts of the real constructors as data); they are not translated from the source"]
+            "the exponential models' constructor test is the class component model_ok : Rec -> bool of the generated program; the generic "
+            "theorems hold for every test. Wave 8b: for HEM and CGMY it is INSTANTIATED (Proofs/C20_Guards.v: hem_model_ok / cgmy_model_ok) "
+            "with the class guards translated on every run from the `if ...: raise ValueError` line of ExponentialOfHEMModel.__init__ "
+            "(eta1 <= 1) / ExponentialOfCGMYModel.__init__ (m < 1 or (m == 1 and y <= 0)) into GenC20Params.hem_exp_raises_q / "
+            "cgmy_exp_raises_q (same source lines as GenC18Cos.hem_exp_raises / cgmy_exp_raises, over Q), conjoined with `generic` = the "
+            "guard of ExponentialOfLevyModel.__init__ (finite, real levy_exponent(-1j): complex float arithmetic, outside the record model, "
+            "any interpretation). The correspondence applies the generated class guard on the Coq side and feeds only the generic verdict "
+            "(obtained by calling ExponentialOfLevyModel.__init__ directly, without the class guard); Merton and VG have no class guard: "
+            "their model_ok is the fed verdict of the whole constructor"]
 ASSUMPTIONS = ["floats are modelled as rationals: NaN/inf values are outside the model (NaN is rejected by every predicate, inf is "
                "accepted by the non-strict/strict positivity predicates in the code)",
                "C20_calibration_spec_partial clause (4) assumes BrentSpec (brentq keeps its documented bracket promise) and an L-Lipschitz "
@@ -83,6 +97,13 @@ ASSUMPTIONS = ["floats are modelled as rationals: NaN/inf values are outside the
                "doubles, e.g. float(1e-12) < 10^-12), a constructed input object, model_ok on the parameters constructed with each evaluated "
                "value, and end values of the objective not of the same strict sign. None of them is discharged for /repo's models: on the "
                "default HEM model with the default bs_sigma the last one is false and run_default_calibration raises",
+               "exception TYPES are not part of the heap model: None = 'raises'. utils.py re-wraps ValueError only, so the ZeroDivisionError of "
+               "a re-initialisation (interval end at HEM eta1 = 1, VG sigma = 0 or nu = 0) leaves calibrate_model_parameter* RAW: "
+               "calibrate_model_parameter_to_atm_call(default HEM, 'eta1', (1.0, 30.0), 1.0, 0.2) -> ZeroDivisionError, (0.5, 30.0) -> "
+               "ValueError('...cannot be calibrated...'). Decided NOT a finding: C20 says 'or raises' without a type and "
+               "HEMParameters(eta1=1.0) raises the same ZeroDivisionError (C20_construct_iff); the monitor requires exactly one of the two there",
+               "VGParameters.nu has no declared constraint (finding F-C20-4, C20_vg_nu_unconstrained_refuted): the harness's `pred` table "
+               "mirrors the DECLARED constraints, so random histories do not flag nu < 0; a dedicated deterministic oracle does",
                "exceptions raised by the COS pricer inside calibration_fun, brentq's RuntimeError (no convergence in 100 iterations) and "
                "NaN objective values are outside the heap model (the price is a total rational function of the record); the monitors require "
                "ValueError there; in the Q model 'same strict sign' is 0 < f(a)*f(b) exactly, brentq.c compares sign bits of floats"]
@@ -125,6 +146,22 @@ THEOREM_NOTES = {
                                           "zero at 0, CGMY c <= 0) => raises. Together with the theorem above every hypothesis of 'returns' has "
                                           "its raising counterpart except 'values in the interval' for interior trial values (a refused interior "
                                           "trial is only reached when the end signs differ)",
+    "C20_exp_model_guards": "audit 5b top-10 #10: model_ok instantiated with the GENERATED class guards (hem_model_ok / cgmy_model_ok). Clauses "
+                            "1-2 characterise the instantiated test by the fields (1 < eta1; 1 < m or m = 1 and 0 < y, each AND generic): the "
+                            "seeded edit `eta1 <= 1` -> `eta1 < 1` changes the generated definition and breaks this proof. Clauses 3-4: the "
+                            "default calibration of a constructed HEM object with eta1 <= 1 / CGMY object with m < 1 or (m = 1, y <= 0) raises "
+                            "for every price, market, generic test, trial list (uses must_raise clause 2 at the lower end of the table's "
+                            "interval + the constructors keep eta1 / m, y). Clause 5: eta1 over any (a, b) with a <= 1 raises (setter / division "
+                            "by zero / class guard, one outcome). `generic` stays an arbitrary test: nothing is proved about levy_exponent(-1j)",
+    "C20_default_calibration_returns_real_guards": "a COROLLARY of C20_default_calibration_returns_if_nothing_raises at model_ok := hem_model_ok generic "
+                            "/ cgmy_model_ok generic, with the class-guard half of the constructor hypothesis discharged from 1 < eta1 (resp. the "
+                            "CGMY condition) on the input; the generic half, the interval and the sign hypotheses remain; Merton / VG: no class "
+                            "guard exists, the general theorem is already about their real test up to `generic`",
+    "C20_vg_nu_unconstrained_refuted": "FINDING F-C20-4 (known): exists nu < 0 accepted by vg_construct and by set + initialisation on every "
+                            "constructed object; on /repo VGParameters(sigma=0.1, nu=-1.0, theta=0.1) has _lambda_p = _lambda_m = nan and the COS "
+                            "ATM call is -1.68993732. Counted under C20 ('parameter constraints are enforced on every assignment'): nu is the only "
+                            "parameter of the four classes with a mathematical domain and no declared constraint, and the fields it corrupts are "
+                            "the cached derived parameters of C20's anchor. The sync clause is NOT violated (construction and assignment agree)",
     "C20_calibration_classes": "objective independent of earlier trial values; returned parameters = direct construction (sync with one assignment)",
     "C20_init_eq_reinit": "about the two py2coq translations (from __init__ and from initialisation) of the current source; reflexivity because "
                           "the two source expressions are currently identical -- an edit of one of them breaks the proof",
@@ -515,10 +552,13 @@ Definition bs_case c := match c with (a, ops, fl, b, tb, tag, af, ta) =>
 """
 
 # the GENERATED heap program of model/utils.py (Gen/GenC20Calib.v) run on the trial values the real brentq used
-COQ_HEADER_CALIB = COQ_HEADER.replace("Model.Params.", "Model.Params Model.ParamsHeap Gen.GenC20Calib.") + r"""
+COQ_HEADER_CALIB = COQ_HEADER.replace("Model.Params.", "Model.Params Model.ParamsHeap Gen.GenC20Calib Proofs.C20_Guards.") + r"""
 (* class components fed as DATA: the objective value the implementation computed at each trial value (price - market, market := 0) and
    whether the exponential model's constructor accepted the parameters built with that value (computed by the harness on a fresh copy,
-   outside the calibration); both keyed by the value of the calibrated field (position k of `fields`) *)
+   outside the calibration); both keyed by the value of the calibrated field (position k of `fields`).
+   Wave 8b: for HEM and CGMY the fed verdict is the one of the GENERIC guard only (ExponentialOfLevyModel.__init__ called directly on
+   HEMModel / CGMYModel(parameters), i.e. WITHOUT the class guard); the class guard is the GENERATED hem_exp_raises_q / cgmy_exp_raises_q,
+   combined by `wrap` := hem_model_ok / cgmy_model_ok of Proofs/C20_Guards.v (Merton, VG: no class guard, wrap = identity) *)
 Definition ptab_price {Rec : Type} (fields : Rec -> list Q) (k : nat) (pt : list (Q * Q)) (r : Rec) : Q := qlookup1 pt (nth k (fields r) 0).
 Definition gtab_ok {Rec : Type} (fields : Rec -> list Q) (k : nat) (gt : list (Q * Q)) (r : Rec) : bool := Qeq_bool (qlookup1 gt (nth k (fields r) 0)) 1.
 (* calibrate_model_parameter on the heap [input] with the interval ab and the trial values xs brentq used AFTER the two ends: None exactly
@@ -526,10 +566,11 @@ Definition gtab_ok {Rec : Type} (fields : Rec -> list Q) (k : nat) (gt : list (Q
    strict end signs); otherwise the input object (address 0) is as the implementation left it and the working copy (address 1) holds the
    last evaluated value *)
 Definition trials_check {Rec Field : Type} (set : Rec -> Field -> Q -> Rec * bool) (init : Rec -> outcome Rec) (fields : Rec -> list Q)
+   (wrap : (Rec -> bool) -> Rec -> bool)
    (r0 : outcome Rec) (c : Field * nat * (Q * Q) * list Q * list (Q * Q) * list (Q * Q) * bool * list Q * list Q) : bool :=
   match c, r0 with
   | (f, k, ab, xs, pt, gt, raised, before, tb), Built r0 =>
-      match gen_calibrate_model_parameter Rec Field set init (ptab_price fields k pt) r0 (gtab_ok fields k gt) [r0] 0%nat f ab 0 xs with
+      match gen_calibrate_model_parameter Rec Field set init (ptab_price fields k pt) r0 (wrap (gtab_ok fields k gt)) [r0] 0%nat f ab 0 xs with
       | Some h' => negb raised && closelist (fields (load Rec r0 h' 0%nat)) before tb
                    && match rev (fst ab :: snd ab :: xs) with [] => true | y :: _ => Qeq_bool (nth k (fields (load Rec r0 h' 1%nat)) 0) y end
       | None => raised
@@ -545,32 +586,33 @@ Definition near (lo a : Q) : bool := Qle_bool (Qabs (a - lo)) (Qabs lo * (1 # 2 
    the returned model's parameters (a new address) are the implementation's returned parameters and every evaluated value lies in the
    table's interval; None exactly when the implementation raised (RAISING calls are cases too) *)
 Definition default_check {Rec Field : Type} (set : Rec -> Field -> Q -> Rec * bool) (init : Rec -> outcome Rec) (fields : Rec -> list Q)
+   (wrap : (Rec -> bool) -> Rec -> bool)
    (f : Field) (lo hi : Q) (r0 : outcome Rec) (c : nat * (Q * Q) * list Q * Q * list (Q * Q) * list (Q * Q) * bool * list Q * list Q * list Q * list Q) : bool :=
   match c, r0 with
   | (k, ab, xs, x, pt, gt, returned, before, tb, after, ta), Built r0 =>
       near lo (fst ab) && near hi (snd ab) &&
-      match gen_run_default_calibration Rec Field set init (ptab_price fields k pt) r0 (gtab_ok fields k gt) [r0] 0%nat f ab 0 xs x with
+      match gen_run_default_calibration Rec Field set init (ptab_price fields k pt) r0 (wrap (gtab_ok fields k gt)) [r0] 0%nat f ab 0 xs x with
       | Some (h', q) => returned && Nat.eqb q 2 && in_interval lo hi (x :: xs)
                         && closelist (fields (load Rec r0 h' 0%nat)) before tb && closelist (fields (load Rec r0 h' q)) after ta
       | None => negb returned
       end
   | _, _ => false
   end.
-Definition hem_trials c := match c with (a, f, k, ab, xs, pt, gt, rs, b, tb) => trials_check hem_set hem_initialisation_checked hem_fields (hem_ctor a) (f, k, ab, xs, pt, gt, rs, b, tb) end.
-Definition merton_trials c := match c with (a, f, k, ab, xs, pt, gt, rs, b, tb) => trials_check merton_set merton_initialisation_checked merton_fields (merton_ctor a) (f, k, ab, xs, pt, gt, rs, b, tb) end.
-Definition vg_trials c := match c with (a, f, k, ab, xs, pt, gt, rs, b, tb) => trials_check vg_set (vg_initialisation_checked qsqrt_hi) vg_fields (vg_ctor a) (f, k, ab, xs, pt, gt, rs, b, tb) end.
+Definition hem_trials c := match c with (a, f, k, ab, xs, pt, gt, rs, b, tb) => trials_check hem_set hem_initialisation_checked hem_fields hem_model_ok (hem_ctor a) (f, k, ab, xs, pt, gt, rs, b, tb) end.
+Definition merton_trials c := match c with (a, f, k, ab, xs, pt, gt, rs, b, tb) => trials_check merton_set merton_initialisation_checked merton_fields (fun g => g) (merton_ctor a) (f, k, ab, xs, pt, gt, rs, b, tb) end.
+Definition vg_trials c := match c with (a, f, k, ab, xs, pt, gt, rs, b, tb) => trials_check vg_set (vg_initialisation_checked qsqrt_hi) vg_fields (fun g => g) (vg_ctor a) (f, k, ab, xs, pt, gt, rs, b, tb) end.
 Definition cgmy_trials c := match c with (g1, p2, (a, f, k, ab, xs, pt, gt, rs, b, tb)) =>
   let fg := qlookup1 g1 in let fp := qlookup2 p2 in
-  trials_check cgmy_set (cgmy_initialisation_checked fg fp) cgmy_fields (cgmy_ctor fg fp a) (f, k, ab, xs, pt, gt, rs, b, tb) end.
+  trials_check cgmy_set (cgmy_initialisation_checked fg fp) cgmy_fields cgmy_model_ok (cgmy_ctor fg fp a) (f, k, ab, xs, pt, gt, rs, b, tb) end.
 Definition hem_default c := match c with (a, k, ab, xs, x, pt, gt, rt, b, tb, af, ta) =>
-  default_check hem_set hem_initialisation_checked hem_fields dc_hem_field dc_hem_lo dc_hem_hi (hem_ctor a) (k, ab, xs, x, pt, gt, rt, b, tb, af, ta) end.
+  default_check hem_set hem_initialisation_checked hem_fields hem_model_ok dc_hem_field dc_hem_lo dc_hem_hi (hem_ctor a) (k, ab, xs, x, pt, gt, rt, b, tb, af, ta) end.
 Definition merton_default c := match c with (a, k, ab, xs, x, pt, gt, rt, b, tb, af, ta) =>
-  default_check merton_set merton_initialisation_checked merton_fields dc_merton_field dc_merton_lo dc_merton_hi (merton_ctor a) (k, ab, xs, x, pt, gt, rt, b, tb, af, ta) end.
+  default_check merton_set merton_initialisation_checked merton_fields (fun g => g) dc_merton_field dc_merton_lo dc_merton_hi (merton_ctor a) (k, ab, xs, x, pt, gt, rt, b, tb, af, ta) end.
 Definition vg_default c := match c with (a, k, ab, xs, x, pt, gt, rt, b, tb, af, ta) =>
-  default_check vg_set (vg_initialisation_checked qsqrt_hi) vg_fields dc_vg_field dc_vg_lo dc_vg_hi (vg_ctor a) (k, ab, xs, x, pt, gt, rt, b, tb, af, ta) end.
+  default_check vg_set (vg_initialisation_checked qsqrt_hi) vg_fields (fun g => g) dc_vg_field dc_vg_lo dc_vg_hi (vg_ctor a) (k, ab, xs, x, pt, gt, rt, b, tb, af, ta) end.
 Definition cgmy_default c := match c with (g1, p2, (a, k, ab, xs, x, pt, gt, rt, b, tb, af, ta)) =>
   let fg := qlookup1 g1 in let fp := qlookup2 p2 in
-  default_check cgmy_set (cgmy_initialisation_checked fg fp) cgmy_fields dc_cgmy_field dc_cgmy_lo dc_cgmy_hi (cgmy_ctor fg fp a) (k, ab, xs, x, pt, gt, rt, b, tb, af, ta) end.
+  default_check cgmy_set (cgmy_initialisation_checked fg fp) cgmy_fields cgmy_model_ok dc_cgmy_field dc_cgmy_lo dc_cgmy_hi (cgmy_ctor fg fp a) (k, ab, xs, x, pt, gt, rt, b, tb, af, ta) end.
 """
 TRIALS_TY = "list Q * {F} * nat * (Q * Q) * list Q * list (Q * Q) * list (Q * Q) * bool * list Q * list Q"
 DEFAULT_TY = "list Q * nat * (Q * Q) * list Q * Q * list (Q * Q) * list (Q * Q) * bool * list Q * list Q * list Q * list Q"
@@ -779,6 +821,26 @@ def _calibration_monitors(res, rng, n_default, n_generic, viol):
         except ValueError:
             return False
 
+    def generic_accepts(model, par, x):
+        """wave 8b: the verdict of the GENERIC guard of ExponentialOfLevyModel.__init__ alone (finite, real levy_exponent(-1j)), obtained by
+        calling that constructor directly on the Levy model built on a fresh copy of the parameters -- the class guards of
+        ExponentialOfHEMModel / ExponentialOfCGMYModel are NOT executed (the Coq side applies their generated translation)"""
+        from rpylib.model.levymodel.exponentialoflevymodel import ExponentialOfLevyModel
+        q = copy.deepcopy(model.levy_model.parameters)
+        try:
+            setattr(q, par, x)
+            q.initialisation()
+        except (ValueError, ZeroDivisionError):
+            return None
+        try:
+            ExponentialOfLevyModel(spot=model.spot, r=model.r, d=model.d, levy_model=type(model.levy_model)(parameters=q))
+            return True
+        except ValueError:
+            return False
+        except Exception as e:  # noqa
+            res.bump("generic_guard_other_exception", type(e).__name__)
+            return False
+
     def raise_in_model(model, par, calls, out):
         """is the way this calibration call ended one the generated heap program can produce?  returned; the objective raised in the
         setter / the re-initialisation / the model constructor; brentq's own ValueError on equal strict end signs.  Anything else (the
@@ -797,7 +859,13 @@ def _calibration_monitors(res, rng, n_default, n_generic, viol):
             if x in seen:
                 continue
             seen.add(x)
-            acc = ctor_accepts(model, par, x)
+            full = ctor_accepts(model, par, x)
+            acc = full
+            if full is not None and type(model).__name__ in ("ExponentialOfHEMModel", "ExponentialOfCGMYModel"):
+                acc = generic_accepts(model, par, x)     # class guard: generated, applied on the Coq side
+                res.bump("constructor_verdict", f"{type(model).__name__}: real constructor {'accepts' if full else 'refuses'}, generic guard alone {'accepts' if acc else 'refuses'}")
+                if full and not acc:
+                    res.broke("calibration monitors", f"{type(model).__name__} accepts {par} = {x} but ExponentialOfLevyModel.__init__ called directly refuses it")
             if acc is not None:
                 gt.append(f"({qlit(x)}, {qlit(1.0 if acc else 0.0)})")
         return pt, lst(gt)
@@ -1055,21 +1123,35 @@ def _calibration_monitors(res, rng, n_default, n_generic, viol):
                     viol("calibrate_model_parameter modified its input model", **rep)
         # intervals whose end is a value where the re-initialisation divides by zero: the calibration must raise (ZeroDivisionError
         # propagates out of brentq; the model: assign_init = None), never return
-        for mt, par, (a, b), kw in [(ModelType.VG, "sigma", (0.0, 1.0), dict(sigma=0.1, nu=0.06, theta=0.1)),
-                                    (ModelType.VG, "nu", (0.0, 1.0), dict(sigma=0.1, nu=0.06, theta=0.1)),
-                                    (ModelType.HEM, "eta1", (1.0, 30.0), dict(sigma=0.05, p=0.6, eta1=20.0, eta2=25.0, intensity=3.0))]:
+        # Wave 8b (audit 5b, B14): utils.py re-wraps ValueError only, so the ZeroDivisionError of the re-initialisation leaves the helpers RAW
+        # (witness of the audit: calibrate_model_parameter_to_atm_call(HEM, "eta1", (1.0, 30.0), 1.0, 0.2), the `atm` entry below).  C20 says
+        # "or raises" without an exception type and HEMParameters(eta1=1.0) raises the same ZeroDivisionError: recorded, not a violation; but
+        # the outcome must be exactly a raw ZeroDivisionError or the wrapped ValueError -- anything else is one.
+        for mt, par, (a, b), kw, atm in [(ModelType.VG, "sigma", (0.0, 1.0), dict(sigma=0.1, nu=0.06, theta=0.1), False),
+                                         (ModelType.VG, "nu", (0.0, 1.0), dict(sigma=0.1, nu=0.06, theta=0.1), False),
+                                         (ModelType.HEM, "eta1", (1.0, 30.0), dict(sigma=0.05, p=0.6, eta1=20.0, eta2=25.0, intensity=3.0), False),
+                                         (ModelType.HEM, "eta1", (1.0, 30.0), dict(sigma=0.05, p=0.6, eta1=20.0, eta2=25.0, intensity=3.0), True)]:
             model = U_.helper_model(mt)(spot=100.0, r=0.02, d=0.0, **kw)
             product = call_product(100.0, 1.0)
             market = bs_price(model, 100.0, 1.0, 0.2)
             snap = snapshot(model)
             rep = dict(kind="calibrate_model_parameter", model=mt.name, params=dict(spot=100.0, r=0.02, d=0.0, **kw), parameter=par, interval=[a, b],
                        maturity=1.0, strike=100.0, payoff="CALL", bs_sigma=0.2, market_price=market, ends="division by zero at an end")
-            res.count(("zero-div interval", mt.name, par), kind="calibrate_model_parameter division-by-zero interval")
-            out = attempt(lambda: U_.calibrate_model_parameter(model, par, (a, b), product, market))
+            res.count(("zero-div interval", mt.name, par, atm), kind="calibrate_model_parameter division-by-zero interval")
+            if atm:
+                rep["atm_entry"] = True
+                out = attempt(lambda: U_.calibrate_model_parameter_to_atm_call(model, par, (a, b), 1.0, 0.2))
+            else:
+                out = attempt(lambda: U_.calibrate_model_parameter(model, par, (a, b), product, market))
             collect_trials(mt, dict(kw), par, model, (a, b), out)
             res.bump("calibration_outcome", f"{mt.name}.{par}: division by zero at an end -> {out[0]} {str(out[1])[:17] if out[0] != 'value' else ''}")
             if out[0] == "value":
                 viol("calibration returns a value although the objective cannot be evaluated at an end of the interval (division by zero)", **rep)
+            elif not ((out[0] == "other" and str(out[1]).startswith("ZeroDivisionError"))
+                      or (out[0] == "ValueError" and "cannot be calibrated" in str(out[1]))):
+                viol(f"calibration over an interval with a division by zero at an end raises {str(out[1])[:60]}: neither the (un-wrapped) "
+                     "ZeroDivisionError of the re-initialisation nor ValueError('...cannot be calibrated...')", **rep)
+            res.bump("zero_division_exception_type", "raw ZeroDivisionError (not re-wrapped by utils.py)" if out[0] == "other" else out[0])
             if snapshot(model) != snap:
                 viol("calibrate_model_parameter modified its input model", **rep)
         # Black-Scholes: the calibration helpers do not support this model type (recorded finding F-C20-3, matched by exception type)
@@ -1089,6 +1171,50 @@ def _calibration_monitors(res, rng, n_default, n_generic, viol):
     return stats
 
 
+VG_NU_WITNESS = dict(sigma=0.1, nu=-1.0, theta=0.1)
+
+
+def _vg_nu_domain(args):
+    """FINDING F-C20-4 on the implementation: is nu < 0 (outside the Variance Gamma model's domain nu > 0) accepted by the constructor and by
+    an assignment + initialisation()?  Returns the observation (no Coq model involved)."""
+    import numpy as np
+    from rpylib.numerical.cosmethod import COSPricer
+    info = _classes()["vg"]
+    obs = dict(constructor_accepts=False, assignment_accepts=False)
+    with warnings.catch_warnings():
+        warnings.simplefilter("ignore")
+        try:
+            obj = info["cls"](**args)
+            obs["constructor_accepts"] = True
+            obs["derived"] = {k: repr(float(obj.__dict__[k])) for k in info["der"]}
+            try:
+                m = info["model"](spot=100.0, r=0.02, d=0.0, parameters=obj)
+                obs["cos_call_atm_1y"] = repr(float(np.squeeze(COSPricer(m).call(np.array([100.0]), 1.0))))
+            except Exception as e:  # noqa
+                obs["cos_call_atm_1y"] = f"{type(e).__name__}: {e}"[:80]
+        except ValueError:
+            pass
+        p = info["cls"](sigma=args["sigma"], nu=0.06, theta=args["theta"])
+        try:
+            p.nu = args["nu"]
+            p.initialisation()
+            obs["assignment_accepts"] = True
+        except ValueError:
+            pass
+    return obs
+
+
+def _domain_monitor(res, viol):
+    res.count(("vg nu domain", tuple(VG_NU_WITNESS.values())), kind="VGParameters: nu outside the model's domain")
+    obs = _vg_nu_domain(VG_NU_WITNESS)
+    res.bump("vg_nu_domain", f"nu = {VG_NU_WITNESS['nu']}: constructor {'accepts' if obs['constructor_accepts'] else 'refuses'}, "
+                             f"assignment {'accepts' if obs['assignment_accepts'] else 'refuses'}")
+    if obs["constructor_accepts"] or obs["assignment_accepts"]:
+        viol("VGParameters accepts nu < 0 (the Variance Gamma model needs nu > 0; no constraint is declared for nu): no exception, cached "
+             f"derived parameters {obs.get('derived')}, COS at-the-money call {obs.get('cos_call_atm_1y')}",
+             finding="F-C20-4", kind="vg_nu_domain", cls="vg", args=dict(VG_NU_WITNESS), assign=["nu", VG_NU_WITNESS["nu"]], **obs)
+
+
 def _run(res, scale):
     rng = random.Random(res.seed)
 
@@ -1101,6 +1227,7 @@ def _run(res, scale):
     except UnmodelledAttribute as e:
         res.broke("correspondence fields", str(e))
         coq_cases, ctor_cases = None, None
+    _domain_monitor(res, viol)
     stats = _calibration_monitors(res, rng, int((48 if quick else 600) * scale), int((35 if quick else 420) * scale), viol)
     # the monitors must not be vacuous: most bracketed cases exist and every one of them must have been calibrated (judge() flags
     # the others individually); an implementation whose root finder always raises cannot pass
@@ -1131,6 +1258,9 @@ def matches_known(v, known):
         return (r.get("kind") == "bs_calibration"
                 and ((r.get("entry") == "run_default_calibration" and exc.startswith("KeyError"))
                      or (r.get("entry") == "calibrate_model_parameter_to_atm_call" and exc.startswith("AttributeError") and "parameters" in exc)))
+    if known["id"] == "F-C20-4":
+        return (r.get("kind") == "vg_nu_domain" and r.get("cls") == "vg" and float(r.get("args", {}).get("nu", 1.0)) < 0
+                and bool(r.get("constructor_accepts") or r.get("assignment_accepts")))
     return False
 
 
@@ -1179,6 +1309,10 @@ def replay(path):
             print("direct construction       :", b)
             same = (a == b) if isinstance(a, str) or isinstance(b, str) else all(_same(x, y) for x, y in zip(a, b))
             return 0 if same else 1
+        if k == "vg_nu_domain":
+            obs = _vg_nu_domain(data["args"])
+            print("VGParameters", data["args"], "->", obs)
+            return 1 if (obs["constructor_accepts"] or obs["assignment_accepts"]) else 0
         if k == "bs_calibration":
             from rpylib.model import utils as U_
             from rpylib.model.levymodel.levymodel import ModelType
@@ -1245,7 +1379,10 @@ LEVEL_TEXT = ("Proof (partial for the calibration clause): Coq theorems, closed 
               "returned parameters are a new object equal to direct construction; IF brentq keeps its bracket promise and the price is "
               "L-Lipschitz THEN the value is in [a,b] and the model reprices within L*delta; (5) the bodies of calibrate_model_parameter, its "
               "inner objective and run_default_calibration, translated statement by statement from /repo on every run -- including the raise "
-              "of the exponential model's constructor (an opaque test of the parameters) and brentq's ValueError when the objective has the "
+              "of the exponential model's constructor (a test of the parameters: any test in the generic theorems; for HEM and CGMY also instantiated "
+              "with the class guards generated from ExponentialOfHEMModel / ExponentialOfCGMYModel.__init__, conjoined with an arbitrary generic "
+              "guard -- then a HEM object with eta1 <= 1 / a CGMY object with m < 1 or (m = 1, y <= 0) makes the default calibration raise "
+              "whatever the prices, and an interval for eta1 starting at a <= 1 always raises) and brentq's ValueError when the objective has the "
               "same strict sign at both ends --, are proved equal to a guarded heap model that refines the one of (4); on the generated "
               "default_calibration table the default calibration of a constructed HEM / Merton / VG / CGMY object returns (new object = "
               "constructor on the final values, input untouched) IF none of the modelled raises occurs -- all evaluated values inside the "
@@ -1253,7 +1390,8 @@ LEVEL_TEXT = ("Proof (partial for the calibration clause): Coq theorems, closed 
               "when the end values have the same strict sign, when the model constructor refuses an end or the returned value, or when an "
               "end / the returned value is below the field's domain. This does NOT say that the default calibration succeeds on the "
               "library's models: run_default_calibration(default HEM model, default bs_sigma = 0.10) raises ValueError on /repo, and is a "
-              "case of the correspondence. Existence of a root, brentq's iteration, the Lipschitz "
+              "case of the correspondence. ValueError and ZeroDivisionError are one outcome of the program ('raises'); the latter leaves "
+              "the helpers un-wrapped on /repo. Known finding F-C20-4 (_refuted theorem + oracle): VGParameters accepts nu < 0. Existence of a root, brentq's iteration, the Lipschitz "
               "constant and the COS price are NOT proved: the calibration functions are monitored on the implementation over a documented box "
               "with independently computed end-point signs (must return / must raise). Model and implementation are compared by vm_compute on "
               "~600 random assignment histories per run (full __dict__), and the generated calibration program is run on the trial values "
@@ -1262,7 +1400,8 @@ LEVEL_TEXT = ("Proof (partial for the calibration clause): Coq theorems, closed 
 LEVEL_NOTE = ("Trusted: Coq kernel + vm_compute; py2coq (fail-closed; its output is also run against the implementation); floats modelled "
               "as rationals (rounding covered by the correspondence tolerance: 0 on dyadic cases, <= 8 ulp of the formula's terms otherwise); "
               "np.sqrt/Gamma/np.power opaque; heap operations (deepcopy = append a copy, model object = address of its parameters), brentq's "
-              "call order / sign test / bracket specification, the model constructor's test (opaque; verdicts fed as data) and the COS price "
+              "call order / sign test / bracket specification, the generic guard of ExponentialOfLevyModel.__init__ (verdicts fed as data; the HEM / "
+              "CGMY class guards are generated) and the COS price "
               "are specified, not verified; harness/py2coq_c20.py (statement patterns of model/utils.py).")
 TECHNIQUE = ("Coq proof (induction over assignment histories and trial lists on py2coq-generated guards, derived-field expressions, default table and "
              "calibration program) + vm_compute correspondence (histories; generated calibration program on spied brentq trials) + calibration monitors")
